@@ -18,13 +18,15 @@ def site_kinds(ctx, reach):
     return out
 
 
-def check_panics(ctx, report, roots, rule, prop, skip_kinds=(), only_bodies=None, lock_rule=False):
+def check_panics(ctx, report, roots, rule, prop, skip_kinds=(), only_bodies=None, lock_rule=False, root_ids=None):
     prog, cg, whole = ctx.prog, ctx.cg, ctx.whole
     reach = cg.reachable([r.id for r in roots])
     bodies = [b for b in reach if only_bodies is None or b in only_bodies]
     audited_rows = [r for r in load_tsv("audited_sites.tsv")]
     assumed_rows = [r for r in load_tsv("assumed_preconditions.tsv") if prop in r[0].split(",")]
     audited_used, assumed_used = [], []
+    trusted_crates = set(r[0] for r in load_tsv("trusted_macros.tsv"))
+    trusted_sites = {}
     n_sites = n_ok = 0
     kinds = {}
     # recursion makes stack depth input-dependent: not allowed under attacker-facing roots
@@ -56,7 +58,10 @@ def check_panics(ctx, report, roots, rule, prop, skip_kinds=(), only_bodies=None
             kinds[o.kind] = kinds.get(o.kind, 0) + 1
             report.count()
             ident = "%s#%d#%s" % (body.qname, o.bi, o.kind)
-            if o.ok:
+            ok = o.ok
+            if ok and o.lifted and root_ids is not None and bid in root_ids:
+                ok = False    # a root is called with arbitrary arguments: its preconditions cannot be assumed
+            if ok:
                 n_ok += 1
                 if o.why != "A-OVF":
                     report.nontriv(ident)
@@ -64,6 +69,10 @@ def check_panics(ctx, report, roots, rule, prop, skip_kinds=(), only_bodies=None
                         report.sample({"fn": body.qname, "site": o.snippet, "kind": o.kind,
                                        "obligation": "; ".join(t for _, t in o.goals),
                                        "discharged_from": "branch facts / summaries (%d facts in scope)" % 0})
+                continue
+            if o.exp and any(len(e) > 2 and e[2] in trusted_crates and e[0] == "bang" for e in o.exp):
+                mname = [e for e in o.exp if len(e) > 2 and e[2] in trusted_crates][-1]
+                trusted_sites["%s!(%s)" % (mname[1], mname[2])] = trusted_sites.get("%s!(%s)" % (mname[1], mname[2]), 0) + 1
                 continue
             key = report.key(body.qname, rule, o.kind, o.snippet)
             # audited?
@@ -107,6 +116,7 @@ def check_panics(ctx, report, roots, rule, prop, skip_kinds=(), only_bodies=None
     report.extra.setdefault("sites_by_kind", {}).update(kinds)
     report.extra.setdefault("audited", []).extend(audited_used)
     report.extra.setdefault("assumed", []).extend(assumed_used)
+    report.extra["sites_inside_trusted_macro_expansions"] = trusted_sites
     report.extra["reachable_functions"] = len(reach)
     report.extra["external_callees_assumed_total"] = dict(sorted(ext_seen.items())[:400])
     return reach
